@@ -1079,6 +1079,85 @@ def check_C08(tier, seed):
 
 
 # ---------------------------------------------------------------------------
+# C05: totality
+# ---------------------------------------------------------------------------
+def total_files_leg(o, name, files, wd):
+    t0 = time.time()
+    results = run_tv_shards(files, "NlTotal.tla", "NlTotal.cfg", wd)
+    counts = {}
+    kinds = {}
+    n = 0
+    for f, r in zip(files, results):
+        o.add_tlc(r)
+        recs = {x["id"]: x for x in core.read_ndjson(f)}
+        n += len(recs)
+        if len(r.verdicts) != len(recs):
+            raise ToolError(f"{name}: {len(r.verdicts)} verdicts for {len(recs)} records")
+        for v in r.verdicts:
+            rec = recs[v["id"]]
+            key = v["class"] + ":" + v["rule"]
+            counts[key] = counts.get(key, 0) + 1
+            kinds[rec["kind"]] = kinds.get(rec["kind"], 0) + 1
+            o.traces += 1
+            if v["class"] == "mismatch":
+                ob = rec["obs"]
+                o.violation({"leg": name, "rule": "outcome", "class": ob.get("class"), "msg": ob.get("msg") or ob.get("site"),
+                             "loc": ob.get("loc"), "input_kind": rec["kind"], "text": rec["text"], "status": ob.get("status"),
+                             "signal": ob.get("signal")},
+                            {"text": rec["text"], "input_length": rec["len"], "obs": ob})
+            elif len(o.samples) < 6 and rec["kind"] not in [s_.get("input_kind") for s_ in o.samples]:
+                o.samples.append({"leg": name, "input_kind": rec["kind"], "text": rec["text"][:100], "outcome": rec["obs"].get("class")})
+    # sensitivity
+    some = [r_ for f in files[:1] for r_ in core.read_ndjson(f)][:6]
+    bad = []
+    for k, r_ in enumerate(some):
+        c = copy.deepcopy(r_)
+        c["obs"] = [{"class": "Panic", "msg": "x"}, {"class": "Err", "kind": "Other"}, {"class": "Timeout"}][k % 3]
+        bad.append(c)
+    bf = os.path.join(wd, f"corrupt_{name}.ndjson")
+    core.write_ndjson(bf, bad)
+    rr = core.tlc_or_die("NlTotal.tla", "NlTotal.cfg", env={"RECS": bf}, workdir_=wd)
+    rej = sum(1 for v in rr.verdicts if v["class"] == "mismatch")
+    if rej != len(bad):
+        raise ToolError(f"{name}: sensitivity self-test failed ({rej}/{len(bad)})")
+    o.legs.append({"leg": name, "records": n, "outcomes": counts, "input_kinds": kinds, "sensitivity_tried": len(bad),
+                   "sensitivity_rejected": rej, "wall_s": round(time.time() - t0, 1)})
+
+
+def check_C05(tier, seed):
+    o = Outcome("C05", tier, seed, "model_checking")
+    o.assumptions = [
+        "inputs are evaluated in an isolated worker process under a wall-clock limit, an address-space limit and an instruction budget; a panic, signal or hang of the worker is an observation",
+        "a run cut short by the instruction budget is admissible only if the reference semantics on the same tree is itself still running (a loop or recursion the program spells out)",
+        "eval takes a &str: truncations are taken at character boundaries; invalid UTF-8 reaches only the binary's file mode",
+    ]
+    wd = core.workdir("C05_eval")
+    shards = core.NCPU
+    n = size(tier, 6000, 400000)
+
+    def gen(i):
+        f = os.path.join(wd, f"tot{i}.ndjson")
+        core.run_nlh(["gen-total", "--seed", seed, "--n", n, "--shards", shards, "--shard", i,
+                      "--first-id", i * 1000000 + 1, "--out", f], timeout=3000)
+        return f
+    files = core.parallel(gen, list(range(shards)))
+    total_files_leg(o, "eval-outcomes", files, wd)
+    sems = [f + ".sem" for f in files if os.path.getsize(f + ".sem") > 0]
+    sem_files_leg(o, "budget-and-sample-vs-semantics", sems, wd)
+    # the real binary, file mode and prompt
+    wd2 = core.workdir("C05_binary")
+    nb = core.build_binary()
+    bf = os.path.join(wd2, "bin.ndjson")
+    core.run_nlh(["gen-binary", "--seed", seed, "--n", size(tier, 60, 1500), "--bin", nb,
+                  "--dir", os.path.join(wd2, "inputs"), "--out", bf], timeout=3000)
+    total_files_leg(o, "binary-outcomes", [bf], wd2)
+    o.extra["rule"] = ("a directed boundary corpus (huge literals, zero divisors, wrong arity, misplaced antwoord/stop, self-referential initialisers, "
+                       "non-ASCII indexing, cyclic structures, truncated constructs, deep nesting, programs beyond the 16-bit limits), token edits and "
+                       "truncations of generated programs, random token sequences and Unicode noise; a sample run through the real binary")
+    return o.finish()
+
+
+# ---------------------------------------------------------------------------
 # C06: operators, exact over the whole range
 # ---------------------------------------------------------------------------
 def corrupt_big(rec, k):
@@ -1187,6 +1266,7 @@ CHECKS = {
     "C02": check_C02,
     "C03": check_C03,
     "C04": check_C04,
+    "C05": check_C05,
 }
 
 
